@@ -132,7 +132,25 @@ func c07R11(c *Ctx, r *Report) {
 			continue
 		}
 		for i, ci := range cs {
-			ok := MustPrecede(fn, storeOf(t.val), ci) && ReachInstr(fn, nil, func(in ssa.Instruction) bool { return in == ssa.Instruction(ci) }, nil) != nil
+			ci := ci
+			val := t.val
+			// accepted spellings: a constant store, or "overtime = !old" where the call is reached only for the matching old value
+			good := func(in ssa.Instruction) bool {
+				if storeOf(val)(in) {
+					return true
+				}
+				if !isFieldStore("modules.Task", "overtime")(in) {
+					return false
+				}
+				u, ok := in.(*ssa.Store).Val.(*ssa.UnOp)
+				if !ok || u.Op.String() != "!" || !fieldLoadOf(u.X, "modules.Task", "overtime") {
+					return false
+				}
+				old := u.X
+				g := Guard{Name: "old overtime value", Truthy: !val, Match: func(b ssa.Value) bool { return b == old }}
+				return ReachTargetAvoiding(fn, ci, []Guard{g}, nil) == nil
+			}
+			ok := MustPrecede(fn, good, ci) && ReachInstr(fn, nil, func(in ssa.Instruction) bool { return in == ssa.Instruction(ci) }, nil) != nil
 			// the store must be the last overtime write before the call
 			last := true
 			eachInstr(fn, func(in ssa.Instruction) {
